@@ -6,19 +6,19 @@ from simlab import chain_evolve
 BASE = {
     "ttno": 2.0, "ttno_same": 1.0, "ttns_random": 3.0, "ttns_product": 0.6, "from_mps": 0.5,
     "add": 2.5, "scale": 1.2, "unary": 1.0, "apply": 2.5, "canonicalise": 1.2, "compress": 1.5,
-    "observe": 4.0, "evolve": 0.0, "lockstep": 0.0, "max_entangled": 0.4, "optimize": 0.0, "dump_load": 0.4, "drop": 0.3,
+    "observe": 4.0, "evolve": 0.0, "lockstep": 0.0, "max_entangled": 0.4, "optimize": 0.0, "expand": 0.3, "normalize": 0.8, "dump_load": 0.4, "drop": 0.3,
 }
 
 TWEAKS = {
     "C02": {"ttno": 8.0, "ttno_same": 4.0, "ttns_random": 1.0, "add": 0.3, "scale": 0.2, "unary": 0.2, "apply": 1.5, "canonicalise": 0.2, "compress": 0.2,
             "observe": 1.5, "dump_load": 0.0, "from_mps": 0.2, "ttns_product": 0.2},
     "C11": {},
-    "C14": {"dump_load": 8.0, "evolve": 1.0, "add": 2.0, "scale": 2.0, "unary": 1.5, "canonicalise": 2.0, "compress": 2.0, "observe": 0.5, "from_mps": 1.0, "max_entangled": 0.5},
+    "C14": {"normalize": 3.0, "dump_load": 8.0, "evolve": 1.0, "add": 2.0, "scale": 2.0, "unary": 1.5, "canonicalise": 2.0, "compress": 2.0, "observe": 0.5, "from_mps": 1.0, "max_entangled": 0.5},
     "C08": {"optimize": 9.0, "ttno": 3.0, "ttns_random": 3.0, "compress": 1.5, "add": 1.0, "apply": 0.5, "observe": 0.5, "evolve": 0.5, "dump_load": 0.0, "max_entangled": 0.0},
     "C05": {"compress": 8.0, "add": 3.0, "apply": 3.0, "observe": 0.5, "evolve": 1.5, "ttns_random": 3.0},
     "C06": {"evolve": 3.0, "add": 3.0, "apply": 3.0, "compress": 2.0, "canonicalise": 2.0, "observe": 0.5, "max_entangled": 0.6},
-    "C13": {"evolve": 4.0, "observe": 5.0, "drop": 1.0, "scale": 3.0, "unary": 3.5, "compress": 2.0, "canonicalise": 2.0, "dump_load": 0.6},
-    "C12": {"evolve": 9.0, "lockstep": 1.5, "max_entangled": 1.0, "ttno": 2.5, "ttns_random": 2.5, "observe": 0.8, "add": 0.8, "apply": 0.8, "compress": 0.5, "dump_load": 0.2},
+    "C13": {"expand": 2.0, "evolve": 4.0, "observe": 5.0, "drop": 1.0, "scale": 3.0, "unary": 3.5, "compress": 2.0, "canonicalise": 2.0, "dump_load": 0.6},
+    "C12": {"evolve": 9.0, "lockstep": 1.5, "max_entangled": 1.0, "expand": 1.5, "ttno": 2.5, "ttns_random": 2.5, "observe": 0.8, "add": 0.8, "apply": 0.8, "compress": 0.5, "dump_load": 0.2},
 }
 
 
